@@ -191,7 +191,7 @@ def main(argv=None):
     known = load_known()
     viol_lines, known_lines, problems = [], {}, []
     os.makedirs(os.path.join(HERE, "replays", prop), exist_ok=True)
-    tot = dict(paths=0, decisions=0, queries=0, solver_s=0.0, witnesses=0, checks=0, aborted=0)
+    tot = dict(paths=0, decisions=0, queries=0, solver_s=0.0, witnesses=0, checks=0, aborted=0, paths_with_checks=0, replayed=0)
     samples, per_ob = [], []
     nviol = 0
     for o in obligations:
@@ -233,6 +233,11 @@ def main(argv=None):
     ev = {
         "property_id": prop, "tier": args.tier, "seed": seed, "level": getattr(mod, "LEVEL", "model_checking"),
         "coverage": {
+            "evaluations": tot["paths"], "distinct_nontrivial": tot["paths_with_checks"],
+            "rule": "one case = one explored control path of one obligation (a distinct feasible decision prefix, hence distinct "
+                    "by construction; each stands for every input satisfying its path condition); non-trivial = at least one "
+                    "assertion was discharged by the solver on that path",
+            "programs": len(obligations), "disagreements_checked": tot["replayed"],
             "states": max(tot["paths"], 0), "transitions": max(tot["decisions"], 0),
             "traces_validated_against_impl": tot["witnesses"],
             "samples": samples[:12] or [{"note": "no path explored"}],
